@@ -453,12 +453,20 @@ JudgeMultiget(ev, post, i) ==
         CASE it.cls \in {"live", "missing", "dup", "enc", "abs"} /\ live /\ BKind(ms[it.n].b) = ev.rk ->
                (IF ~a.found \/ a.e # ms[it.n].e \/ ~a.hasdata \/ a.xn # ms[it.n].xn
                   THEN Viol("C17", [w |-> "wrong-answer-for-live-href", item |-> it, a |-> a], i) ELSE {})
+               \cup
+               (IF a.found /\ a.e # ms[it.n].e
+                  THEN Viol("C02", [w |-> "multiget-etag-differs-from-getetag", item |-> it, a |-> a], i) ELSE {})
           [] it.cls = "othercoll" ->
                \* a member of another collection: serving it is fine, but then with its own data
                (IF a.hasdata /\ ~(it.oc \in Colls(post) /\ it.n \in DOMAIN post.colls[it.oc].members
                                   /\ a.e = post.colls[it.oc].members[it.n].e
                                   /\ a.xn = post.colls[it.oc].members[it.n].xn)
                   THEN Viol("C17", [w |-> "wrong-data-for-href-in-other-collection", item |-> it, a |-> a], i) ELSE {})
+               \cup
+               \* C02: the etag a multiget carries for a live resource is that resource's etag
+               (IF a.found /\ it.oc \in Colls(post) /\ it.n \in DOMAIN post.colls[it.oc].members
+                   /\ a.e # post.colls[it.oc].members[it.n].e
+                  THEN Viol("C02", [w |-> "multiget-etag-differs-from-getetag", item |-> it, a |-> a], i) ELSE {})
           [] OTHER ->
                (IF a.hasdata
                   THEN Viol("C17", [w |-> "data-served-for-unresolvable-href", item |-> it, a |-> a], i) ELSE {})
